@@ -56,6 +56,10 @@ func init() {
 			break
 		}
 	}
+	// keys 4..7: further ordinary seeds (thorough tier)
+	for s := 3; len(keys) < 8; s++ {
+		keys = append(keys, mkKey(s))
+	}
 }
 
 func mkKey(seed int) ed25519.PrivateKey {
@@ -163,7 +167,7 @@ func harnesses(r *fw.Run) []fw.HarnessSpec {
 		ver := versions[c.ChooseFree(len(versions))]
 		keySeeds := []int{0, 3}
 		if !r.Quick() {
-			keySeeds = []int{0, 3, 1, 2, 4, 5, 6, 7}
+			keySeeds = []int{0, 3, 4, 5, 6, 7} // keys 1 and 2 are the "other wallet" and the "other signer"
 		}
 		ki := keySeeds[c.ChooseFree(len(keySeeds))]
 		execMode := c.ChooseFree(4)
